@@ -594,3 +594,85 @@ def modelled(f, values):
         if any(big(v) for v in values):
             return False
     return True
+
+
+def satisfies(f, v):
+    """A declarative reading of a field's *declared constraints* on a stored value, written without looking at the library's
+    validators: True / False, or None where this harness makes no independent statement (AnyField, custom validators, kinds whose
+    constraint is a parser of the standard library, NaN).  Soundness oracle: what a field accepted has to satisfy what it declares."""
+    import re
+    k = f.get("k")
+    if f.get("custom"):
+        return None
+    if v is None:
+        return not f.get("required")
+    if k in ("int", "port", "float"):
+        if isinstance(v, bool) or not isinstance(v, (int, float)):
+            return False
+        if k in ("int", "port") and not isinstance(v, int):
+            return False
+        if k == "float" and not isinstance(v, float):
+            return False
+        if v != v:
+            return None
+        lo = f.get("min", 1 if k == "port" else None)
+        hi = f.get("max", 65535 if k == "port" else None)
+        if lo is not None and v < lo:
+            return False
+        if hi is not None and v > hi:
+            return False
+        return True
+    if k == "bool":
+        return isinstance(v, bool)
+    if k == "string":
+        if not isinstance(v, str):
+            return False
+        if f.get("min_len") is not None and len(v) < f["min_len"]:
+            return False
+        if f.get("max_len") is not None and len(v) > f["max_len"]:
+            return False
+        if f.get("choices") and v not in f["choices"]:
+            return False
+        if f.get("regex") and not re.match(f["regex"], v):
+            return False
+        if f.get("case") == "lower" and v != v.lower():
+            return False
+        if f.get("case") == "upper" and v != v.upper():
+            return False
+        if f.get("required") and v == "":
+            return False
+        return True
+    if k == "ipv4net":
+        if not isinstance(v, str) or "/" not in v:
+            return False
+        try:
+            n = int(v.rsplit("/", 1)[1])
+        except ValueError:
+            return False
+        if f.get("min_prefix") is not None and n < f["min_prefix"]:
+            return False
+        if f.get("max_prefix") is not None and n > f["max_prefix"]:
+            return False
+        return None if any(f.get(o) not in (None, [], "") for o in _STR_OPTS) else True
+    if k == "bytes":
+        return isinstance(v, bytes)
+    if k == "list" and isinstance(f.get("item"), dict):
+        if f["item"].get("k") == "any":
+            return None                # handled like an untyped list: the value is kept as it is (a tuple stays a tuple)
+        if not isinstance(v, list):
+            return False
+        if f.get("required") and not v:
+            return False
+        rs = [satisfies(f["item"], x) for x in v]
+        return False if False in rs else (None if None in rs else True)
+    if k == "dict" and (isinstance(f.get("key"), dict) or isinstance(f.get("value"), dict)):
+        if not isinstance(v, dict):
+            return False
+        if f.get("required") and not v:
+            return False
+        rs = []
+        for a, b in v.items():
+            rs.append(satisfies(f["key"], a) if isinstance(f.get("key"), dict) else None)
+            rs.append(satisfies(f["value"], b) if isinstance(f.get("value"), dict) else None)
+        return False if False in rs else (None if None in rs else True)
+    return None
